@@ -395,6 +395,8 @@ def check(repo, rep, tier):
     rep.rule('R15.3', 'span ids unique by construction; child lists and root from returned ids')
     rep.rule('R15.4', 'rule vocabulary handed to ccg2lambda matches the active language\'s templates')
     r_candc(repo, rep)
+    from .c12 import r_label_recovery
+    r_label_recovery(repo, rep, 'R15.1')
     r_jigg(repo, rep)
     r_ids(repo, rep)
     n = r_ccg2lambda_vocab(repo, rep)
